@@ -148,6 +148,7 @@ SPECS["C12"] = dict(
     jobs=[
         rapid("TestC12Core", 800, 25000, sq=4, st=16),
         plain("TestC12FEC", sq=1, st=2),
+        rapid("TestC07Sampled", 1500, 30000, sq=2, st=8),  # every position incl. the wrap, fresh and re-tuned decoders
         rapid("TestC12SessionFECWrap", 250, 8000, sq=3, st=12),
     ],
 )
